@@ -296,7 +296,9 @@ def run(repo: Repo) -> Result:
     if missing["no-duplicates"]:
         kind, node = missing["no-duplicates"][0]
         res.add("C18-CHECKS", sb.qual, "duplicate-block", f"_stack_blocks reaches `{text(node)[:50]}` on a path that has not rejected duplicate block names (TemplateInheritanceError) — e.g. for a base template, the last one of the chain", sb.file, node.lineno)
-    bt = repo.own_method(f"{M}.BlockTag", "parse")
+    from ..normalize import nfunc as _nfunc18
+
+    bt = _nfunc18(repo, repo.own_method(f"{M}.BlockTag", "parse"), keep=("parse_name",))  # private helpers of the tag inlined
     res.ob(bt.qual)
     # `if <end name> != <block name>: raise TemplateInheritanceError` — both sides are locals bound
     # from parse_name(...) (whatever they are called), or the comparison is written the other way
